@@ -284,6 +284,16 @@ def d4(cx: Cx, ob: Ob) -> None:
             "_file_helper reads with quoting=QUOTE_NONE: a quoted cell is handed to the conversion with its quote characters (and a quoted cell containing the delimiter is split into two columns), so the column is not transformed as the scalar method would transform the cell's value",
             detail="reader-quote-none",
         )
+    src = readers[0][2][0] if readers[0][2] else None
+    for x in subterms(src) if src is not None else ():
+        if op(x) == "call" and op(x[1]) == "attr" and x[1][2] in ("splitlines", "split"):
+            ob.violate(
+                fn.qualname,
+                fn.where,
+                f"_file_helper feeds csv.reader with `{show(src)[:50]}`: str.{x[1][2]} cuts lines at characters the csv module treats as data (\\x0b, \\x0c, \\x1c-\\x1e, \\x85, U+2028, U+2029) and inside quoted cells, so one row becomes two and other columns / the row count are not preserved",
+                witness="a cell containing U+2028 in a comment column: the row is torn apart",
+                detail="reader-source",
+            )
     rd, wd = dict(readers[0][3]).get("delimiter"), dict(writers[0][3]).get("delimiter")
     ob.site(f"{fn.where} {fn.qualname}", f"delimiters: read {show(rd)[:30] if rd else 'default'} / write {show(wd)[:30] if wd else 'default'}")
     if rd != wd:
@@ -372,3 +382,11 @@ def d5(cx: Cx, ob: Ob) -> None:
     from ..rules import open_args_agreement
 
     open_args_agreement(cx, ob, [f"{CONV}._file_helper"], [f"{CONV}._file_helper"], "_file_helper")
+
+
+@obligation("C16-X6", "LOOKUP None-discipline (shared with C02-D3): lookup results and str|None results are tested with `is None`, never by truthiness - the empty prefix, the empty URI prefix and the empty identifier are legitimate values", floor=40)
+def x6(cx: Cx, ob: Ob) -> None:
+    from ..rules import scan_none_discipline
+    from .c02 import none_scope
+
+    scan_none_discipline(cx, ob, none_scope(cx))
